@@ -47,6 +47,13 @@ pub fn grid(tier: Tier) -> Vec<Body> {
     }
     // the threaded generator gets eight more cells per order: each cell draws its own CPU counts and
     // schedulers from the run's seed
+    // far above the enumerated range: word-multiple and power-of-two orders and their neighbours, for the
+    // generators whose output is linear in the order
+    for gen in ["empty", "circuit", "cycle", "path", "star", "wheel"] {
+        for order in [191, 192, 193, 255, 256, 257, 320, 384, 448, 511, 512, 513, 576, 640, 704, 1000, 1023, 1024, 1025] {
+            g.push(Body { gen: gen.to_string(), a: order, b: 0 });
+        }
+    }
     let complete_max = match tier {
         Tier::Quick => 260,
         Tier::Thorough => 400,
